@@ -464,6 +464,13 @@ def abstract_case(op, n=2, with_params=False):
 I, C, S, PG, TR = ("Interval", "A"), ("Circle", "A"), ("Sphere", "A"), ("Parallelogram", "A"), ("Triangle", "A")
 
 
+def _default_solver_knobs():
+    from symtorch import smt, harness, explore
+    smt.PRE_STRATEGIES = ()
+    harness.EXTRA_RUNGS = ()
+    explore.FEAS_FALLBACK = None
+
+
 def cases(tier):
     quick = tier == "quick"
     # solver strategy for the sqrt/quotient chains of polygon normals (opt-in hook of symtorch/smt.py): nlsat with
@@ -511,6 +518,17 @@ def cases(tier):
         for li in (0, 1):
             for pc in ("lb", "ub"):
                 cs.append(generic_case(e, li, pc, 0))
+    # premise of the composition step: the Boolean boundaries choose the operand whose boundary._contains answers true,
+    # so the operands' boundary membership has to be right (same cases as C05 bcontains/<primitive>; without them a wrong
+    # TriangleBoundary._contains turns a union's normals inwards while every claim above still holds)
+    from . import c05
+    for name, mk, info in SH.catalog(tier):
+        if info.get("fam") == "prim":
+            c = c05.boundary_case(name, mk, info, 0)
+            c.name = "premise/" + c.name
+            c.family = "premise/" + c.family
+            c.setup = _default_solver_knobs
+            cs.append(c)
     if quick:
         return cs
     # ---- thorough ------------------------------------------------------------------------------
